@@ -351,9 +351,20 @@ theorem insert_in_place_is_the_source_u64 {D : Type} (g : Rng D) (fuel e sz cap 
    fun bits hb h => insert_heap_is_the_source_u64 g fuel e sz cap bits a he hb d h⟩
 /-- … and the plain-table arm for an element other than the placeholder (found / empty bucket / `p_insert` with room) -/
 theorem insert_in_place_plain_is_the_source_u64 {D : Type} (g : Rng D) (fuel e sz cap bits : Nat) (a : Tbl)
-    (hb : bits = 0 ∨ bits > 64) (d : D) {res : (Bool × Nat) × Array Nat} (h : Gen.insert_big_64 e sz bits a = .ok res) :
-    insert cfg64 g (fuel + 1) (.heap sz cap bits a) e d = armOut cap bits d (.ok res) :=
+    (hb : bits = 0 ∨ bits > 64) (d : D) {res : (Bool × Nat × Nat) × Array Nat} (h : Gen.insert_big_64 e sz bits a = .ok res) :
+    insert cfg64 g (fuel + 1) (.heap sz cap bits a) e d = armOutB cap d (.ok res) :=
   insert_big_is_the_source_u64 g fuel e sz cap bits a hb d h
+
+/-- **inserting the placeholder value itself** (the path on which D9 and D13 lived): `p_remove` of the stand-in for 0,
+one draw, the upward scan to the first usable value (greater than 64, not the old placeholder, not a word of the
+table; wrapping), re-insertion of the stand-in, then the in-place paths — the `Big` arm of the source translated in
+full up to the growth point, with the generator's draw as a parameter.  Whenever it returns, the model's `insert`
+returns the same set (new placeholder included), answer and generator state -/
+theorem insert_placeholder_is_the_source_u64 {D : Type} (g : Rng D) (fuel sz cap bits : Nat) (a : Tbl)
+    (hb : bits = 0 ∨ bits > 64) (d : D) (hsmall : a.size + 64 + 3 ≤ 2 ^ 64) {res : (Bool × Nat × Nat) × Array Nat}
+    (h : Gen.insert_bigfull_64 bits sz bits a (modW cfg64 (g.draw d cap bits).1) = .ok res) :
+    insert cfg64 g (fuel + 1) (.heap sz cap bits a) bits d = armOutB cap (g.draw d cap bits).2 (.ok res) :=
+  SC.insert_placeholder_is_the_source_u64 g fuel sz cap bits a hb d hsmall h
 
 end C01
 
